@@ -26,7 +26,7 @@ TraceNext ==
        [] e.a = "reg" -> RegisterOrSame(ClassByUid(e.code)) /\ keymap' = keymap
        [] e.a = "new" -> NewOrSame /\ keymap' = keymap
        [] e.a = "fz" -> SetFuzzy({k \in T : e.set[k] = 1}) /\ keymap' = keymap
-       [] e.a = "fzo" -> SetFuzzyOpts({k \in 1..3 : e.set[k] = 1}) /\ keymap' = keymap
+       [] e.a = "fzo" -> SetFuzzyOpts({k \in Opts : e.set[k] = 1}) /\ keymap' = keymap
        [] e.a = "get" -> Get(e.t) /\ last'.code = e.code /\ KeyOK(e.kid, last'.key)
        [] e.a = "key" -> KeyFor(e.t) /\ KeyOK(e.kid, last'.key)
 TraceSpec == TraceInit /\ [][TraceNext]_tvars
